@@ -650,4 +650,141 @@ PROPS["C11"] = {
     "assumptions": ["cryptographic: a changed signed message or signature value does not verify"],
 }
 
+
+def nt_c01(lhs, impl):
+    f = lhs.split(" ")
+    op = f[0]
+    if op in ("robust", "bounded", "clirobust"):
+        kind = _hexbytes(f[1]).decode("latin1")
+        n = len(_hexbytes(f[3]))
+        return (op, kind, n.bit_length(), impl.split(" ")[0])
+    if op == "ssh1":
+        d = _hexbytes(f[1])
+        return (op, d[33] if len(d) > 33 else -1, len(d) // 8, f[2] == "-", impl[:2])
+    return (op, lhs[:40], impl.split(" ")[0])
+
+SCAN_PANICS = [
+    "internal/crypto/elliptic mustDecodeHex: panic",
+    "internal/crypto/elliptic mustParseAsBigInt: panic",
+    "internal/file filetype.MatchesName: panic",
+    "internal/openpgp/packet EncryptedKey.Serialize: panic",
+    "internal/openpgp/packet PublicKey.Serialize: panic",
+    "internal/openpgp/packet PublicKey.SerializeSignaturePrefix: panic",
+    "internal/openpgp/packet PublicKey.VerifySignatureV3: panic",
+    "internal/openpgp/packet PublicKeyV3.Serialize: panic",
+    "internal/openpgp/packet PublicKeyV3.SerializeSignaturePrefix: panic",
+    "internal/openpgp/packet PublicKeyV3.VerifySignatureV3: panic",
+    "internal/openpgp/packet Signature.Serialize: panic",
+    "internal/openpgp/packet Signature.Serialize: panic",
+    "internal/openpgp/packet Signature.parse: panic",
+    "internal/openpgp/packet SignatureV3.Serialize: panic",
+    "internal/openpgp/packet SignatureV3.parse: panic",
+    "internal/ssh1 decrypt: panic",
+    "internal/ssh1/des tripleDESCipher.CryptBlocks: panic",
+    "internal/ssh1/des tripleDESCipher.CryptBlocks: panic",
+    "internal/ssh1/des tripleDESCipher.decrypt: panic",
+    "internal/ssh1/des tripleDESCipher.decrypt: panic"
+]
+
+SCAN_MAKES = [
+    "internal/openpgp/packet NewOCFBDecrypter: make []byte size blockSize",
+    "internal/openpgp/packet NewOCFBDecrypter: make []byte size len(prefix)",
+    "internal/openpgp/packet PrivateKey.Decrypt: make []byte size len(pk.encryptedData)",
+    "internal/openpgp/packet PrivateKey.Decrypt: make []byte size pk.cipher.KeySize()",
+    "internal/openpgp/packet PrivateKey.parse: make []byte size blockSize",
+    "internal/openpgp/packet Signature.Serialize: make []byte size 2 + unhashedSubpacketsLen",
+    "internal/openpgp/packet Signature.buildHashSuffix: make []byte size l + 6",
+    "internal/openpgp/packet Signature.parse: make []byte size l + 6",
+    "internal/openpgp/packet Signature.parse: make []byte size unhashedSubpacketsLength",
+    "internal/openpgp/packet SymmetricKeyEncrypted.Decrypt: make []byte size len(ske.encryptedKey)",
+    "internal/openpgp/packet SymmetricKeyEncrypted.Decrypt: make []byte size ske.CipherFunc.KeySize()",
+    "internal/openpgp/packet SymmetricKeyEncrypted.Decrypt: make []byte size ske.CipherFunc.blockSize()",
+    "internal/openpgp/packet SymmetricallyEncrypted.Decrypt: make []byte size c.blockSize() + 2",
+    "internal/openpgp/packet ecdhKdf.parse: make []byte size kdfLen",
+    "internal/openpgp/packet padToKeySize: make []byte size k",
+    "internal/openpgp/packet parseSignatureSubpacket: make []byte size len(subpacket)",
+    "internal/openpgp/packet parseSignatureSubpacket: make []byte size len(subpacket)",
+    "internal/openpgp/packet parseSignatureSubpacket: make []byte size len(subpacket)",
+    "internal/openpgp/packet readMPI: make []byte size numBytes",
+    "internal/openpgp/s2k Iterated: make []byte size len(in) + len(salt)",
+    "internal/ssh1 decrypt: make []byte size len(ciphertext)",
+    "internal/ssh1 readMPInt: make []byte size n",
+    "internal/ssh1 readString: make []byte size n",
+    "internal/util DecodeAnyBase64: make []byte size d.DecodedLen(len(b))"
+]
+
+PROPS["C01"] = {
+    "modules": ["WhatIs.Props.C01"],
+    "theorems": ["WhatIs.C01.ssh1_guards_in_force", "WhatIs.C01.candidates_total", "WhatIs.C01.inspect_returns_description",
+                 "WhatIs.C01.b64_no_panic", "WhatIs.C01.curve_match_total", "WhatIs.C01.ssh1_no_panic",
+                 "WhatIs.C01.ssh1_panic_witness", "WhatIs.C01.ssh1_behind_magic", "WhatIs.C01.asn1_recursion_terminates",
+                 "WhatIs.C01.one_report_per_file"],
+    "facts": {"scan.panics": SCAN_PANICS, "ssh1.checksBlocks": True, "ssh1.boundsMPInt": True, "ssh1.boundsString": True,
+              "rpm.prechecked": True, "jks.prechecked": True, "b64.panicOnDecodeError": False,
+              "filetypes.patternWithInnerStar": False, "rpm.uncheckedAccessorCalls": []},
+    "nontrivial": nt_c01,
+    "gen_timeout": 3000,
+    "rule": "hostile inputs run through file.Inspect in an isolated child process (address-space limit, watchdog) and, for the "
+            "constructed ones and a sample of the fixture mutants, through the real binary: every fixture of every format intact, "
+            "truncated at (a sample of / thorough: every) offset and with single-byte substitutions; SSH1, JKS/JCEKS and RPM instances "
+            "with every length/count/type field at 0, 1, 2^16-1, 2^16, 2^31-1, 2^31, 2^32-1; 3DES ciphertexts of 0..17 bytes; "
+            "unprotected OpenPGP secret keys of every algorithm incl. ECDH/cv25519 subkeys; EdDSA / X25519 points of 0,1,2,16,32,34,64 "
+            "octets; every file of <= 3 (thorough: 4) bytes over the base64 class alphabet; DER nested 1k/50k (thorough 400k) deep; "
+            "random bytes after every signature; plus the SSH1 model correspondence (generated keys plain / 3DES under the empty and "
+            "another passphrase, every truncation, substitutions, boundary length fields). distinct non-trivial = distinct "
+            "(operation, input kind, size class, outcome)",
+    "design_ref": "DESIGN.md §5 C01",
+    "level_text": "Partial proof. Proved for ALL inputs, in Lean: the dispatcher never panics and Inspect returns a description whenever no "
+                  "parser panics (for all names, contents and parser behaviours); the base64 classifier/decoder gap is an error; explicit "
+                  "EC parameter matching is total; the SSH1 reader (incl. its 3DES layer) returns a description or an error for every file "
+                  "and every cipher behaviour and is reachable only behind its 33-byte signature; the ASN.1 recursion terminates (fuel "
+                  "above the input length is never consumed); one regular-file argument yields exactly one report and exit status 0. "
+                  "Each theorem is tied to the current source by regenerated tables/flags, so regressing a guard breaks the proof. "
+                  "NOT proved: panic-freedom of crypto/x509, x/crypto/ssh, jks-go, go-rpm and of the copied OpenPGP packet reader — "
+                  "they enter the theorem as the hypothesis 'does not panic', which the run tests on hostile inputs; the regenerated "
+                  "list of reachable panic() sites and the pre-check facts pin what was reviewed. The Go runtime stack limit is outside "
+                  "the model (finding D38: DER nested ~2 million deep overflows the stack).",
+    "level_note": "Trusted: Lean kernel; translator/factscan facts; recover()/child-process observation of crashes; Go standard library "
+                  "and third-party parsers as oracles (tested, not verified).",
+    "technique": "Lean 4 proof (totality of dispatch/selection, SSH1 reader, base64, EC matching, ASN.1 recursion) + regenerated structural facts (guards, reachable panic sites) + hostile-input correspondence run in an isolated process and through the real binary",
+    "trusted_base": ["crypto/x509, encoding/asn1, encoding/pem, x/crypto/ssh, jks-go, go-rpm, google/uuid (oracles: assumed not to panic; tested)",
+                     "copied x/crypto/openpgp packet reader (oracle for C01; its reachable panic() sites are pinned by scan.panics)",
+                     "Go runtime (stack growth, scheduler) — outside the model"],
+    "assumptions": ["a parser that does not panic on the explored hostile inputs does not panic at all (hypothesis of inspect_returns_description)"],
+}
+
+PROPS["C08"] = {
+    "modules": ["WhatIs.Props.C08"],
+    "theorems": ["WhatIs.C08.limits_in_force", "WhatIs.C08.read_capped", "WhatIs.C08.read_complete", "WhatIs.C08.cap_value",
+                 "WhatIs.C08.ssh1_allocs_bounded", "WhatIs.C08.ssh1_alloc_total", "WhatIs.C08.unbounded_witness",
+                 "WhatIs.C08.b64_decoded_bounded", "WhatIs.C08.asn1_nodes_bounded", "WhatIs.C08.asn1_depth_bounded",
+                 "WhatIs.C08.rpm_header_bounded", "WhatIs.C08.rpm_refused", "WhatIs.C08.rpm_overlap_witness"],
+    "facts": {"scan.makes": SCAN_MAKES, "limits.maxReadSize": 128000000, "limits.inspectReadsThroughLimit": True,
+              "ssh1.boundsMPInt": True, "ssh1.boundsString": True, "rpm.prechecked": True, "jks.prechecked": True},
+    "nontrivial": nt_c01,
+    "gen_timeout": 3000,
+    "rule": "the hostile inputs of C01 plus inputs of 1 KiB, 64 KiB and 1 MiB of every content class whose cost could grow faster than "
+            "linearly (base64 text in both alphabets, dotted segments, PEM begin lines and blocks, authorized_keys/known_hosts lines, "
+            "deepest and widest DER that fit, each signature followed by random / 0xFF bytes, tiny OpenPGP packets, long armor), each "
+            "inspected in an isolated child with runtime.MemStats.TotalAlloc and wall time measured: allocation <= 1024*n + 4 MiB, "
+            "time <= 5 s for n <= 64 KiB, no watchdog expiry; unbounded inputs through the real binary (endless pipe, sparse 200 MB "
+            "file; thorough: /dev/zero and three pipe contents) must exit 0; SSH1 model correspondence as in C01. distinct "
+            "non-trivial = distinct (operation, input kind, size class, outcome)",
+    "design_ref": "DESIGN.md §5 C08",
+    "level_text": "Partial proof. Proved for ALL inputs, in Lean: the read loop of Inspect over an io.LimitReader terminates on every "
+                  "source — finite or endless, with any pattern of short reads — with at most MaxReadSize (regenerated: 128,000,000) bytes, "
+                  "and reads inputs below the cap completely; every input-sized allocation of the SSH1 reader is at most the file length "
+                  "and all together at most 3n (with a witness that the bound is the guard's doing); base64 output is no longer than the "
+                  "text; the ASN.1 tree has at most n/2 nodes and depth n/2. Tied to the source by regenerated flags (limit reader in "
+                  "Inspect, length guards in readMPInt/readString, pre-checks before go-rpm and jks-go) and by the regenerated list of "
+                  "input-sized make() sites. NOT proved: the allocator, the third-party readers and the OpenPGP packet reader — "
+                  "measured instead (TotalAlloc and time per inspection against the budget).",
+    "level_note": "Trusted: Lean kernel; translator/factscan facts; io.LimitReader/io.ReadAll semantics as modelled; runtime.MemStats as the "
+                  "allocation measure; time measured on this machine (budget generous by three orders of magnitude).",
+    "technique": "Lean 4 proof (read-cap termination for all sources, SSH1 allocation ledger, base64 and ASN.1 size bounds) + regenerated structural facts (limit reader, length guards, input-sized make sites) + measured allocation/time correspondence run",
+    "trusted_base": ["io.LimitReader / io.ReadAll / bytes.Reader semantics (modelled by hand)", "runtime.MemStats.TotalAlloc",
+                     "jks-go, go-rpm, x/crypto/ssh, crypto/x509 allocation behaviour (measured, not verified)"],
+    "assumptions": ["allocation outside the modelled sites is bounded as measured on the explored inputs"],
+}
+
 NOT_CLAIMED = {}
